@@ -46,6 +46,7 @@ type acquire struct {
 	lock string
 	mode int
 	pos  token.Pos
+	end  token.Pos // 0: held to the end of the unit (deferred unlock); otherwise the inline Unlock statement
 }
 
 type pkgInfo struct {
@@ -261,6 +262,28 @@ func walkUnit(body *ast.BlockStmt, f func(ast.Node) bool) {
 }
 
 func (p *pkgInfo) scan(u *unit) {
+	// local variables built from composite literals of the package's struct types: x := T{...} / &T{...}
+	ast.Inspect(u.body, func(nd ast.Node) bool {
+		as, ok := nd.(*ast.AssignStmt)
+		if !ok || as.Tok != token.DEFINE || len(as.Lhs) != len(as.Rhs) {
+			return true
+		}
+		for i, r := range as.Rhs {
+			if ue, ok := r.(*ast.UnaryExpr); ok && ue.Op == token.AND {
+				r = ue.X
+			}
+			if cl, ok := r.(*ast.CompositeLit); ok && cl.Type != nil {
+				if id, ok := as.Lhs[i].(*ast.Ident); ok {
+					if _, known := p.structs[typeString(cl.Type)]; known {
+						if _, shadow := u.vars[id.Name]; !shadow {
+							u.vars[id.Name] = typeString(cl.Type)
+						}
+					}
+				}
+			}
+		}
+		return true
+	})
 	// lock acquisitions: top-level statements "X.mux.Lock()" directly followed (anywhere later at top level) by a deferred unlock
 	deferred := map[string]bool{}
 	for _, st := range u.body.List {
@@ -276,14 +299,60 @@ func (p *pkgInfo) scan(u *unit) {
 				if l, op, ok := lockCall(p, u, call); ok && deferred[l] {
 					switch op {
 					case "Lock":
-						u.acq = append(u.acq, acquire{l, 2, st.End()})
+						u.acq = append(u.acq, acquire{l, 2, st.End(), 0})
 					case "RLock":
-						u.acq = append(u.acq, acquire{l, 1, st.End()})
+						u.acq = append(u.acq, acquire{l, 1, st.End(), 0})
 					}
 				}
 			}
 		}
 	}
+	// inline regions: X.Lock() ... X.Unlock() as statements of one block (any nesting level)
+	var inline func(list []ast.Stmt)
+	inline = func(list []ast.Stmt) {
+		for i, st := range list {
+			es, ok := st.(*ast.ExprStmt)
+			if !ok {
+				continue
+			}
+			call, ok := es.X.(*ast.CallExpr)
+			if !ok {
+				continue
+			}
+			l, op, ok := lockCall(p, u, call)
+			if !ok || (op != "Lock" && op != "RLock") {
+				continue
+			}
+			if deferred[l] && containsStmt(u.body.List, st) {
+				continue // handled above
+			}
+			want, mode := "Unlock", 2
+			if op == "RLock" {
+				want, mode = "RUnlock", 1
+			}
+			for _, later := range list[i+1:] {
+				if es2, ok := later.(*ast.ExprStmt); ok {
+					if c2, ok := es2.X.(*ast.CallExpr); ok {
+						if l2, op2, ok := lockCall(p, u, c2); ok && l2 == l && op2 == want {
+							u.acq = append(u.acq, acquire{l, mode, st.End(), later.Pos()})
+							break
+						}
+					}
+				}
+			}
+		}
+	}
+	walkUnit(u.body, func(nd ast.Node) bool {
+		switch b := nd.(type) {
+		case *ast.BlockStmt:
+			inline(b.List)
+		case *ast.CaseClause:
+			inline(b.Body)
+		case *ast.CommClause:
+			inline(b.Body)
+		}
+		return true
+	})
 	walkUnit(u.body, func(nd ast.Node) bool {
 		switch x := nd.(type) {
 		case *ast.GoStmt:
@@ -301,6 +370,15 @@ func (p *pkgInfo) scan(u *unit) {
 		}
 		return true
 	})
+}
+
+func containsStmt(list []ast.Stmt, s ast.Stmt) bool {
+	for _, x := range list {
+		if x == s {
+			return true
+		}
+	}
+	return false
 }
 
 func (p *pkgInfo) callee(u *unit, call *ast.CallExpr) string {
@@ -321,7 +399,7 @@ func (p *pkgInfo) callee(u *unit, call *ast.CallExpr) string {
 func (u *unit) selfHeld(pos token.Pos) lockset {
 	ls := lockset{}
 	for _, a := range u.acq {
-		if pos >= a.pos && a.mode > ls[a.lock] {
+		if pos >= a.pos && (a.end == 0 || pos < a.end) && a.mode > ls[a.lock] {
 			ls[a.lock] = a.mode
 		}
 	}
@@ -371,14 +449,17 @@ func (p *pkgInfo) solve() {
 		if u.goLit {
 			continue
 		}
-		viaGo := false
+		viaGo, goFromMethod := false, false
 		for _, c := range callers[n] {
 			if c.c.isGo {
 				viaGo = true
+				if c.u.recvType != "" { // started by a method: once per call, so several instances can be alive
+					goFromMethod = true
+				}
 			}
 		}
 		u.root = u.exported || len(callers[n]) == 0 || viaGo
-		u.multi = u.exported
+		u.multi = u.exported || goFromMethod
 	}
 	top := lockset{}
 	for _, n := range p.order {
